@@ -250,20 +250,16 @@ Theorem localized_names_injective : forall l, In l locales ->
 Proof. exact localized_names_injective. Qed.
 Print Assumptions localized_names_injective.
 
-(* token e where the locale has week_data (every shipped locale but nl, see nl_is_the_only_locale_without_week_data) *)
-Theorem token_e_partial : forall rec loc t fd, l_first_day loc = Some fd ->
+(* token e: day of week relative to the locale's first day; every shipped locale has week_data
+   (nl lacked it and raised TypeError until the fix: commit in /repo; the former _refuted theorem is gone with the defect) *)
+Theorem token_e : forall rec loc t, In loc locales -> exists fd, l_first_day loc = Some fd /\
   format_token rec loc t [101] = Ok (render_d ((weekday0 (ymd2ord (t_year t) (t_month t) (t_day t)) mod 7 - fd) mod 7)).
-Proof. exact tok_e. Qed.
-Print Assumptions token_e_partial.
+Proof. exact tok_e_every_locale. Qed.
+Print Assumptions token_e.
 
-(* KNOWN FINDING nl-week-data: in locale nl the token raises for every DateTime *)
-Theorem token_e_nl_refuted : forall rec t, format_token rec loc_nl t [101] = Raise E_TypeError.
-Proof. exact nl_e_raises. Qed.
-Print Assumptions token_e_nl_refuted.
-
-Theorem nl_is_the_only_locale_without_week_data : forallb (fun l => match l_first_day l with Some _ => true | None => str_eqb (l_name l) [110;108] end) locales = true.
-Proof. exact nl_is_the_only_one. Qed.
-Print Assumptions nl_is_the_only_locale_without_week_data.
+Theorem every_locale_has_week_data : forallb (fun l => match l_first_day l with Some _ => true | None => false end) locales = true.
+Proof. exact C08Facts.every_locale_has_week_data. Qed.
+Print Assumptions every_locale_has_week_data.
 
 (* [body] is emitted verbatim (body without '[', and no ']' in the rest before the next '['), followed by the rendering of the rest *)
 Theorem escape_verbatim : forall d loc t body rest, ~ In 91 body -> no_rb_before_lb rest = true ->
